@@ -135,6 +135,7 @@ type World struct {
 	Gen             *Gen
 	PropOverride    string
 	armedC15        bool
+	armedC08        bool
 	wallAdvanced    int64
 	// pending: transactions admitted by CheckTx that no proposer has included yet (the node's
 	// mempool). CometBFT re-checks every one of them after each Commit (CheckTx type Recheck) and
